@@ -15,7 +15,8 @@
        `linalg.inv` is the ring's `rinv` (a library kernel; for matrices over Q: Gauss-Jordan,
        `mat_ops n`; `mat_ops_with n iv` is the same ring with any other inverse kernel `iv`, e.g.
        the 2 x 2 adjugate formula `minv2`).  `mperm n s` relabels the channels of a matrix.
-   * `crosscov_entry`, `crosscov_vector`, `autocov_vector`, `lags_of`
+   * `crosscov_entry`, `crosscov_vector`, `autocov_vector`, `lags_of`, and `crosscov_vector_kw` /
+     `autocov_vector_kw` = the same with the public keyword `nlags=None` (default: all N lags)
        nitime/utils.py:2132-2217 (real data: `.conj()` is the identity); `lags_of` is the
        `.transpose(2, 0, 1)` every caller applies (layout [i][j][k] -> [k][i][j]).
    * `MAR_est_LWR`          autoregressive.py:252-274 (after the fix: nlags = order + 1;
@@ -175,6 +176,13 @@ Definition crosscov_vector (x y : list (list Q)) (nlags : nat) : list (list (lis
   let N := length (nth 0 x []) in
   map (fun xi => map (fun yj => map (fun k => crosscov_entry N k xi yj) (seq 0 nlags)) y) x.
 Definition autocov_vector (x : list (list Q)) (nlags : nat) := crosscov_vector x x nlags.
+
+(* the public keyword `nlags=None` (the default): `if nlags is None: nlags = N` — all N lags *)
+Definition nlags_kw (x : list (list Q)) (nlags : option nat) : nat :=
+  match nlags with Some n => n | None => length (nth 0 x []) end.
+Definition crosscov_vector_kw (x y : list (list Q)) (nlags : option nat) : list (list (list Q)) :=
+  crosscov_vector x y (nlags_kw x nlags).
+Definition autocov_vector_kw (x : list (list Q)) (nlags : option nat) := crosscov_vector_kw x x nlags.
 
 (* Rxx.transpose(2, 0, 1): the list of lag matrices R(0), R(1), ... *)
 Definition lags_of (nc nlags : nat) (rxy : list (list (list Q))) : list mat :=
